@@ -25,7 +25,11 @@ THEOREMS = [
     {"name": "C13_update_task_state_never_out_of_fuel / C13_fuel_irrelevant / C13_fuel_two_suffices", "strength": "F",
      "text": "the re-entrant update_task_state call terminates: over every composed graph (engine commands inert) the "
              "model's recursion bound is never reached and extra fuel never changes a result"},
-    {"name": "(tested, not proved) no transition/publish fires for a retried attempt", "strength": "T", "text": "monitor c13"},
+    {"name": "C13_retried_attempt_decides_nothing / C13_retry_call_decides_nothing / C13_enters_retrying_only_by_retry_event "
+             "(props/C13c.v)", "strength": "F",
+     "text": "no transition, publish or failure handling fires for an attempt that is retried: over the whole call that "
+             "decides to retry, no record's decisions or published-context reference change and no snapshot is appended"},
+    {"name": "(tested) monitor c13 on generated histories", "strength": "T", "text": "the same clauses on the engine"},
 ]
 TRUSTED_BASE = common.TRUSTED_BASE_COMMON
 ASSUMPTIONS = ["theorems are about the Gallina model; the tie to conducting.py is the lock-step comparison on generated histories"]
